@@ -48,13 +48,32 @@ Fixpoint step_obs (prev : bytes) (tr : list (wstate * out)) : list val :=
 
 (* histories with reopen: (treopen ..) closes the handle and opens the file again with the same roots and
    options (Crash.reopen = store.ResumableVersion + store.Resume); a failed reopen ends the history *)
-Inductive xop := XOp (op : sop) | XReopen.
+(* ReadWrite.DeleteBlock (always an error) and ReadWrite.HashOnRead (a no-op) are stutter steps: they are
+   not operations of the map, the state and the file are untouched *)
+Inductive xop := XOp (op : sop) | XReopen | XDelete (c : bytes) | XHashOnRead (enable : bool).
 Fixpoint v_xops (l : list val) : list xop :=
   match l with
   | [] => []
   | v :: t => if tag_is v "reopen" then XReopen :: v_xops t
+              else if tag_is v "delete" then XDelete (vB (vnth 1 v)) :: v_xops t
+              else if tag_is v "hashonread" then XHashOnRead (vbool (vnth 1 v)) :: v_xops t
               else match v_sop v with Some op => XOp op :: v_xops t | None => v_xops t end
   end.
+Definition stutter_res (x : xop) : out := match x with XDelete _ => OErr EOther | _ => ONil end.
+(* the map history inside a history with stutter steps, and the results put back in place *)
+Fixpoint x_sops (ops : list xop) : list sop :=
+  match ops with
+  | [] => []
+  | XOp op :: t => op :: x_sops t
+  | _ :: t => x_sops t
+  end.
+Fixpoint weave (ops : list xop) (rs : list out) : list out :=
+  match ops with
+  | [] => []
+  | XOp _ :: t => match rs with r :: rs' => r :: weave t rs' | [] => [] end
+  | x :: t => stutter_res x :: weave t rs
+  end.
+Definition no_reopen (x : xop) : bool := match x with XReopen => false | _ => true end.
 
 Section XTrace.
   Variable hdrdec : bytes -> option (list bytes * N).
@@ -69,13 +88,17 @@ Section XTrace.
         | inl s' => (ws_file s', ONil) :: xtrace s' t
         | inr (e, dv) => [(d_file dv, OErr e)]
         end
+    | x :: t => (ws_file s, stutter_res x) :: xtrace s t
     end.
 End XTrace.
 
 Fixpoint xstep_obs (prev : bytes) (tr : list (bytes * out)) : list val :=
   match tr with
   | [] => []
-  | (file, o) :: t => VL [v_out o; v_of_bool (negb (bytes_eqb prev file))] :: xstep_obs file t
+  | (file, o) :: t =>
+      (* third field: does storage.IsNotFound classify the error as "not found" *)
+      VL [v_out o; v_of_bool (negb (bytes_eqb prev file)); v_of_bool (match o with OErr ENotFound => true | _ => false end)]
+      :: xstep_obs file t
   end.
 
 Definition run_storemap (input : val) : val :=
@@ -135,6 +158,12 @@ Fixpoint check_steps (f : front) (o : wopts) (roots : list bytes) (cls : string)
        (C04_refines_map_resumed); Resume may rewrite the CARv2 header, so the file may change here *)
     if val_eqb (vnth 0 ob) (VL [VT "nil"]) then check_steps f o roots cls (mkm (m_blocks m) false false) ops' obs'
     else fail "reopen-refused" cls
+  | XDelete _ :: ops', ob :: obs' | XHashOnRead _ :: ops', ob :: obs' =>
+    (* stutter steps: the fixed answer, and the file as it was *)
+    if vbool (vnth 1 ob) then fail "stutter-step-changed-file" cls
+    else if negb (val_eqb (vnth 0 ob) (v_out (stutter_res (match ops with x :: _ => x | [] => XReopen end))))
+    then fail "stutter-step-result" cls
+    else check_steps f o roots cls m ops' obs'
   | XOp op :: ops', ob :: obs' =>
     let '(m', expect) := spec_step f o roots m op in
     let got := vnth 0 ob in
@@ -146,7 +175,10 @@ Fixpoint check_steps (f : front) (o : wopts) (roots : list bytes) (cls : string)
                   | OpKeys => val_eqb (canon_keys (v_out expect)) (canon_keys got)
                   | _ => val_eqb (v_out expect) got
                   end in
-      if same then check_steps f o roots cls m' ops' obs'
+      (* storage.IsNotFound must say "not found" exactly for the lookups of keys the map does not hold *)
+      let want_nf := match expect with OErr ENotFound => true | _ => false end in
+      if same && negb (Bool.eqb want_nf (vbool (vnth 2 ob))) then fail "notfound-classification" cls
+      else if same then check_steps f o roots cls m' ops' obs'
       else fail (String.append (op_name op) "-differs-from-map") cls
   | _, _ => VT "ok"
   end.
